@@ -1621,6 +1621,9 @@ def parse_equation_ellipses(eq, shapes, tuples=False):
         # no ellipsis, just check for output
         if rhs:
             output = rhs[0]
+            if check_ellipsis(output):
+                # an ellipsis in the output only stands for no dimensions
+                output = output.replace("...", "")
         else:
             output = find_output_str(lhs)
 
